@@ -620,11 +620,8 @@ func cmdCheck(prop, tier string) int {
 			wbin = scratch + "/bin/worker-race"
 		}
 		final := raw
-		if v.RaceReport != "" {
-			// race reports are deduplicated per process, so candidates cannot be
-			// re-executed in one process: the recorded workload and tape are
-			// reported as they are
-		} else if out, err := run("", append(os.Environ(), "GOMAXPROCS=1"), wbin, "replay", "-minimise", "-file", raw, "-out", min, "-known", verifDir+"/known_findings.json"); err == nil {
+		// (race violations: one fresh process per candidate, see minimiseRace)
+		if out, err := run("", append(os.Environ(), "GOMAXPROCS=1", "GORACE=log_path="+scratch+"/race-min halt_on_error=0 exitcode=0 atexit_sleep_ms=0 history_size=4", "VERIF_RACELOG="+scratch+"/race-min"), wbin, "replay", "-minimise", "-file", raw, "-out", min, "-known", verifDir+"/known_findings.json"); err == nil {
 			final = min
 		} else {
 			fmt.Fprintf(os.Stderr, "driver: minimisation failed (%v): %s\n", err, out)
